@@ -45,7 +45,7 @@ INFO = {
                    "plus the quoting projections on symbolic strings.",
     "files": ["mappyfile/pprint.py", "mappyfile/transformer.py", "mappyfile/quoter.py", "mappyfile/ordereddict.py", "mappyfile/parser.py"],
     "functions": ["mappyfile.pprint.PrettyPrinter._format", "mappyfile.transformer.MapfileTransformer.*", "mappyfile.quoter.Quoter.escape_quotes", "mappyfile.quoter.Quoter.standardise_quotes"],
-    "bounds": {"skeletons": "layer, map, expr (C01's structural skeletons)", "option_sets": "quick 4 / thorough 6", "string_holes": "2 code points", "esc_len": "quick 4 / thorough 6 code points, any of 32..0x2FFF incl. quotes and backslash"},
+    "bounds": {"skeletons": "layer, map, expr (C01's structural skeletons)", "option_sets": "quick 4 / thorough 6", "string_holes": "2 code points", "esc_len": "quick 5 / thorough 7 code points, any of 32..0x2FFF incl. quotes and backslash"},
     "outside": ["byte identity over whole corpus files", "option sets beyond the listed ones (the layout under every option combination is C16's)"],
     "assumptions": ["hole substitution justified by C05's scanner lemmas"],
     "stubs": ["hole lexer"],
@@ -70,7 +70,7 @@ def obligations(tier, seed):
         if o.name.startswith("C10-BUILD/expression.") and o.name.endswith(".K6"):
             o.name = o.name.replace("C10-BUILD/", "C04-GROUP/")
             obs.append(o)
-    for L in ((2, 4) if tier == "quick" else (2, 3, 4, 5, 6)):
+    for L in ((2, 4, 5) if tier == "quick" else (2, 3, 4, 5, 6, 7)):
         cs = chars("c", L)
         src = ESC + harness("h", cs, conj([f"okc({n})" for n, _ in cs]), ESC_BODY.format(S=chr_expr("c", L)))
         obs.append(Ob(name=f"C04-ESC/L{L}", source=src, pct=600, timeout=700,
